@@ -14,6 +14,7 @@
 #include "scheme.h"
 #include "tree_instance.h"
 #include "version.h"
+#include "verif_hook.h"
 
 #include "glog/logging.h"
 
@@ -122,21 +123,25 @@ public:
 
     [[nodiscard]] const std::array<key_length_type, key_slice_length>&
     get_key_length_ref() const {
+        YAKUSHIMA_VERIF_YIELD(Y_LOAD | Y_CAT_NODE, &key_length_);
         return key_length_;
     }
 
     [[nodiscard]] key_length_type
     get_key_length_at(const std::size_t index) const {
+        YAKUSHIMA_VERIF_YIELD(Y_LOAD | Y_CAT_NODE, &key_length_);
         return key_length_.at(index);
     }
 
     [[nodiscard]] const std::array<key_slice_type, key_slice_length>&
     get_key_slice_ref() const {
+        YAKUSHIMA_VERIF_YIELD(Y_LOAD | Y_CAT_NODE, &key_slice_);
         return key_slice_;
     }
 
     [[nodiscard]] key_slice_type
     get_key_slice_at(const std::size_t index) const {
+        YAKUSHIMA_VERIF_YIELD(Y_LOAD | Y_CAT_NODE, &key_slice_);
         return key_slice_.at(index);
     }
 
@@ -288,6 +293,7 @@ public:
 
     void shift_left_base_member(const std::size_t start_pos,
                                 const std::size_t shift_size) {
+        YAKUSHIMA_VERIF_YIELD(Y_STORE | Y_CAT_NODE, &key_slice_);
         memmove(&key_slice_.at(start_pos - shift_size),
                 &key_slice_.at(start_pos),
                 sizeof(key_slice_type) * (key_slice_length - start_pos));
@@ -298,6 +304,7 @@ public:
 
     void shift_right_base_member(const std::size_t start,
                                  const std::size_t shift_size) {
+        YAKUSHIMA_VERIF_YIELD(Y_STORE | Y_CAT_NODE, &key_slice_);
         memmove(&key_slice_.at(start + shift_size), &key_slice_.at(start),
                 sizeof(key_slice_type) *
                         (key_slice_length - start - shift_size));
